@@ -126,6 +126,12 @@ pub fn run(ctx: &mut Ctx) {
   if part == "twoloop" || part == "all" {
     two_loop_part(ctx);
   }
+  if part == "twowin" || part == "all" {
+    two_window_part(ctx);
+  }
+  if part == "twobig" || part == "all" {
+    two_big_part(ctx);
+  }
 }
 
 // ------------------------------------------------------------------------------------------------
@@ -176,6 +182,178 @@ fn gen_delay(r: &mut Rng, span: f64) -> f64 {
   }
 }
 
+/// delay lists as they occur in practice, and the edge cases of "a list": scans of a dip with coarse wings and a
+/// fine centre (symmetric about `centre`), palindromic gap sequences, equal first and last gaps around an irregular
+/// interior, evenly spaced scans (ascending / descending), one displaced point in an even scan, two segments of
+/// different step, geometric spacing, repeated values, single delays and pairs.  `unit` is the natural delay scale.
+pub fn structured_delays(r: &mut Rng, centre: f64, unit: f64) -> (&'static str, Vec<f64>) {
+  let dip = [-4.0, -2.0, -1.0, -0.5, -0.25, 0.0, 0.25, 0.5, 1.0, 2.0, 4.0];
+  let from_gaps = |start: f64, gaps: &[f64]| -> Vec<f64> {
+    let mut v = vec![start];
+    let mut t = start;
+    for g in gaps {
+      t += g;
+      v.push(t);
+    }
+    v
+  };
+  match r.below(14) {
+    0 => ("dip-scan", dip.iter().map(|x| centre + x * unit).collect()),
+    1 => ("dip-scan-descending", dip.iter().rev().map(|x| centre + x * unit).collect()),
+    2 => {
+      // palindromic gaps g1 … gm [mid] gm … g1
+      let m = r.between(1, 4);
+      let half: Vec<f64> = (0..m).map(|_| unit * r.log_range(0.05, 3.0)).collect();
+      let mut gaps = half.clone();
+      if r.coin() {
+        gaps.push(unit * r.log_range(0.05, 3.0));
+      }
+      gaps.extend(half.iter().rev());
+      let total: f64 = gaps.iter().sum();
+      ("palindromic-gaps", from_gaps(centre - 0.5 * total, &gaps))
+    }
+    3 => {
+      // equal first and last gap, irregular interior
+      let g = unit * r.log_range(0.05, 2.0);
+      let m = r.between(1, 6);
+      let mut gaps = vec![g];
+      for _ in 0..m {
+        gaps.push(unit * r.log_range(0.01, 3.0));
+      }
+      gaps.push(g);
+      let sign = if r.coin() { 1.0 } else { -1.0 };
+      let gaps: Vec<f64> = gaps.iter().map(|x| sign * x).collect();
+      ("equal-end-gaps", from_gaps(centre - sign * unit * r.range(0.0, 3.0), &gaps))
+    }
+    4 | 5 => {
+      // evenly spaced, as `Steps` produces it
+      let n = r.between(3, 12);
+      let a = centre - unit * r.range(0.5, 5.0);
+      let b = centre + unit * r.range(0.5, 5.0);
+      let v: Vec<f64> = (0..n).map(|k| a + (k as f64) * (b - a) / ((n - 1) as f64)).collect();
+      if r.coin() {
+        ("even-ascending", v)
+      } else {
+        ("even-descending", v.into_iter().rev().collect())
+      }
+    }
+    6 => {
+      // an even scan with one interior point displaced
+      let n = r.between(4, 10);
+      let a = centre - unit * r.range(0.5, 5.0);
+      let step = unit * r.log_range(0.05, 2.0);
+      let mut v: Vec<f64> = (0..n).map(|k| a + (k as f64) * step).collect();
+      let j = r.between(1, n - 2);
+      v[j] += step * r.range(-0.9, 0.9);
+      ("even-one-displaced", v)
+    }
+    7 => {
+      // coarse steps, then fine steps, then coarse again with the same coarse step
+      let c = unit * r.log_range(0.5, 3.0);
+      let f = c / (r.between(2, 8) as f64);
+      let (nc, nf) = (r.between(1, 3), r.between(1, 6));
+      let mut gaps = vec![c; nc];
+      gaps.extend(vec![f; nf]);
+      gaps.extend(vec![c; r.between(1, 3)]);
+      let total: f64 = gaps.iter().sum();
+      ("coarse-fine-coarse", from_gaps(centre - 0.5 * total, &gaps))
+    }
+    8 => {
+      // geometric spacing on one side of the centre
+      let n = r.between(3, 9);
+      let sign = if r.coin() { 1.0 } else { -1.0 };
+      ("geometric", (0..n).map(|k| centre + sign * unit * 0.1 * 2f64.powi(k as i32)).collect())
+    }
+    9 => {
+      // repeated values
+      let a = centre + unit * r.range(-3.0, 3.0);
+      let b = centre + unit * r.range(-3.0, 3.0);
+      let v = match r.below(5) {
+        0 => vec![a, a, a],
+        1 => vec![a, b, a, b],
+        2 => vec![a, a, b, b],
+        3 => vec![a, b, b, a],
+        _ => vec![a, b, a],
+      };
+      ("repeated-values", v)
+    }
+    10 => ("single", vec![if r.coin() { centre } else { centre + unit * r.range(-3.0, 3.0) }]),
+    11 => {
+      let a = centre + unit * r.range(-3.0, 3.0);
+      ("pair", if r.below(3) == 0 { vec![a, a] } else { vec![a, centre + unit * r.range(-3.0, 3.0)] })
+    }
+    12 => {
+      // symmetric about the centre without containing it, unequal gaps
+      let m = r.between(2, 5);
+      let mut off: Vec<f64> = (0..m).map(|_| unit * r.log_range(0.05, 5.0)).collect();
+      off.sort_by(|x, y| x.partial_cmp(y).unwrap());
+      let mut v: Vec<f64> = off.iter().rev().map(|x| centre - x).collect();
+      v.extend(off.iter().map(|x| centre + x));
+      ("symmetric-no-centre", v)
+    }
+    _ => {
+      // unordered
+      let n = r.between(3, 8);
+      ("unordered", (0..n).map(|_| centre + unit * r.range(-5.0, 5.0)).collect())
+    }
+  }
+}
+
+/// "a delay series equals the individually computed rates" on structured delay lists (array level)
+fn series_case(ctx: &mut Ctx, n: usize, related: bool) {
+  let (a, b) = gen_axis(&mut ctx.rng);
+  let fs = if related {
+    fspace(a, b, n, a, b, n)
+  } else {
+    let (a2, b2) = gen_axis(&mut ctx.rng);
+    fspace(a, b, n, a2, b2, n)
+  };
+  let f: Vec<C> = (0..n * n).map(|_| rand_c(&mut ctx.rng)).collect();
+  let g: Vec<C> = if related { swap_arr(&f, n) } else { (0..n * n).map(|_| rand_c(&mut ctx.rng)).collect() };
+  let span = (b - a).abs();
+  let unit = if span > 0.0 { ctx.rng.log_range(0.05, 5.0) / span } else { 1.0 };
+  let centre = if ctx.rng.below(3) == 0 { 0.0 } else { unit * ctx.rng.range(-5.0, 5.0) };
+  let (lname, delays) = structured_delays(&mut ctx.rng, centre, unit);
+  ctx.count(&format!("series/list/{}", lname));
+  series_check(ctx, fs, &f, &g, &delays, &format!("list={} related={} n={} {} seedcase={}", lname, related as u8, n, grid_txt(&fs), ctx.seed), "hom/series-eq-individual/structured");
+}
+
+/// K line of the series + S: every entry equals `hom_rate` at that delay (rel 1e-12)
+fn series_check(ctx: &mut Ctx, fs: FrequencySpace, f: &[C], g: &[C], delays: &[f64], det: &str, sig: &str) {
+  let ser = guard(|| hom_rate_series(fs, f, g, delays.iter().map(|t| *t * S).collect::<Vec<Time>>()));
+  ctx.k(
+    "hom_rate_series",
+    &format!("{} {} {} {} {}", grid_str(&fs), delays.len(), fls(delays), cxs(f), cxs(g)),
+    &out_fls(&ser),
+  );
+  if own_norm(f) > 0.0 {
+    let singles: Vec<Option<f64>> = delays.iter().map(|t| guard(|| hom_rate(fs, f, g, *t * S, None))).collect();
+    let mut why = String::new();
+    let ok = match &ser {
+      Some(v) if v.len() == delays.len() => {
+        let mut ok = true;
+        for (j, (x, y)) in v.iter().zip(singles.iter()).enumerate() {
+          let good = matches!(y, Some(y) if close(*x, *y, 1e-12, 1e-13) || (x.is_nan() && y.is_nan()));
+          if !good && ok {
+            ok = false;
+            why = format!("entry={} tau={:e} in_series={:e} single={:?}", j, delays[j], x, y);
+          }
+        }
+        ok
+      }
+      Some(v) => {
+        why = format!("series_len={}", v.len());
+        false
+      }
+      None => {
+        why = "series-panicked".into();
+        false
+      }
+    };
+    ctx.s("C09.series", ok, sig, &format!("{} delays={:?} {}", det, delays, why).replace(", ", ","));
+  }
+}
+
 fn array_part(ctx: &mut Ctx) {
   let maxn = if ctx.thorough { 40 } else { 12 };
 
@@ -203,6 +381,15 @@ fn array_part(ctx: &mut Ctx) {
   for _ in 0..ctx.n / 3 {
     general_case(ctx, maxn);
   }
+  // structured delay lists: series = individually computed rates
+  for j in 0..(ctx.n / 4).max(28) {
+    let n = match j % 4 {
+      0 => ctx.rng.between(1, 4),
+      3 if j % 8 == 3 => ctx.rng.between(33, 50),
+      _ => ctx.rng.between(2, maxn),
+    };
+    series_case(ctx, n, j % 5 != 4);
+  }
   // Gaussian closed form: fine grids (64, 96), a spread of sides incl. N² > 1024 not a multiple of
   // 1024, and small sides (coarse grids: tolerance = the actual discretisation error)
   let ng = if ctx.thorough { 60 } else { 14 };
@@ -217,6 +404,8 @@ fn array_part(ctx: &mut Ctx) {
     };
     gaussian_case(ctx, side);
   }
+  // a round resolution a user types: 128² = 2·8192 points (block-size multiples)
+  gaussian_case(ctx, 128);
 }
 
 /// square grid with identical axes; `g` is the exchanged-argument counterpart of `f`
@@ -396,6 +585,12 @@ fn gaussian_case(ctx: &mut Ctx, side: usize) {
         side, w0, sigma, t0, tau, r, expect, disc_err, tol
       ),
     );
+  }
+  // the Gaussian scanned with a structured delay list around the dip: series = individual rates
+  {
+    let (lname, scan) = structured_delays(&mut ctx.rng, t0, 1.0 / sigma);
+    ctx.count(&format!("series/list/{}", lname));
+    series_check(ctx, fs, &f, &g, &scan, &format!("gaussian=1 list={} side={} w0={:e} sigma={:e} t0={:e}", lname, side, w0, sigma, t0), "hom/series-eq-individual/structured");
   }
   // correspondence on this grid at two non-zero delays
   for &tau in &[delays[4], delays[2]] {
@@ -604,6 +799,72 @@ fn symmetric_range(r: &mut Rng, s: &SPDC, n: usize) -> FrequencySpace {
   fspace(c - h, c + h, n, c - h, c + h, n)
 }
 
+/// windows whose signal and idler axes are related without being identical: a shared first or last frequency,
+/// the same end points with different step counts, the same points in opposite order, one axis shifted by one
+/// step, unrelated windows, and windows that reach above the pump frequency (aligned so that the grid still
+/// meets the energy-conserving line).  Outside the identical-axes clause of C09, inside its last sentence.
+fn window_variant(r: &mut Rng, s: &SPDC, n: usize) -> (&'static str, FrequencySpace) {
+  let o = raw(&s.optimum_range(n));
+  let c = 0.25 * (o.0 + o.1 + o.3 + o.4);
+  let h = 0.5 * (o.1 - o.0).abs().max((o.4 - o.3).abs()) * r.range(0.6, 1.4);
+  let h2 = h * *r.pick(&[0.5, 0.75, 0.9, 0.999, 1.001, 1.25, 2.0]);
+  match r.below(10) {
+    0 => ("shared-start", fspace(c - h, c + h, n, c - h, c + h2, n)),
+    1 => ("shared-end", fspace(c - h, c + h, n, c - h2, c + h, n)),
+    2 => ("shared-start-descending", fspace(c + h, c - h, n, c + h, c - h2, n)),
+    3 => ("shared-end-descending", fspace(c + h, c - h, n, c + h2, c - h, n)),
+    4 => ("same-ends-different-counts", fspace(c - h, c + h, n, c - h, c + h, n + r.between(1, 2))),
+    5 => ("opposite-order", fspace(c - h, c + h, n, c + h, c - h, n)),
+    6 => {
+      let step = if n > 1 { 2.0 * h / ((n - 1) as f64) } else { h };
+      ("shifted-one-step", fspace(c - h, c + h, n, c - h + step, c + h + step, n))
+    }
+    7 => ("unrelated", fspace(c - h * r.range(0.3, 1.5), c + h * r.range(0.3, 1.5), n, c - h * r.range(0.3, 1.5), c + h * r.range(0.3, 1.5), n)),
+    8 => ("shared-start-only-signal-wider", fspace(c - h, c + h2, n, c - h, c + h, n)),
+    _ => {
+      let w = r.below(3);
+      above_pump_window(r, s, n, w)
+    }
+  }
+}
+
+/// a window whose axes (both, the signal's or the idler's only) end above the pump frequency, with a step chosen so
+/// that grid points still lie on ω_s + ω_i = ω_p (a generous window around a source; nothing can be emitted above ω_p)
+fn above_pump_window(r: &mut Rng, s: &SPDC, n: usize, which: usize) -> (&'static str, FrequencySpace) {
+  let wp = *(s.pump.frequency() / (RAD / S));
+  let cx = *(s.signal.frequency() / (RAD / S));
+  let cy = wp - cx;
+  if n < 4 {
+    let top = wp * (1.0 + r.log_range(1e-6, 0.2));
+    return ("above-pump/coarse", fspace(cx.min(cy) * 0.9, top, n, cx.min(cy) * 0.9, top, n));
+  }
+  // p points below the centre, the last point at ω_p (1 + ε)
+  let p = r.between(1, (n - 2) / 2);
+  let eps = match r.below(4) {
+    0 => 0.0,
+    1 => r.log_range(1e-12, 1e-6),
+    _ => r.log_range(1e-4, 0.3),
+  };
+  let hi = cx.max(cy);
+  let step = (wp * (1.0 + eps) - hi) / ((n - 1 - p) as f64);
+  let (ax, ay) = (cx - (p as f64) * step, cy - (p as f64) * step);
+  let (bx, by) = (ax + ((n - 1) as f64) * step, ay + ((n - 1) as f64) * step);
+  let o = raw(&s.optimum_range(n));
+  let tag = if eps == 0.0 { "above-pump/ends-at-pump" } else { "above-pump" };
+  match which {
+    0 => (tag, fspace(ax, bx, n, ay, by, n)),
+    1 => (tag, fspace(ax, bx, n, o.3, o.4, n)),
+    _ => {
+      if r.coin() {
+        (tag, fspace(o.0, o.1, n, ay, by, n))
+      } else {
+        // descending axes starting above the pump
+        (tag, fspace(bx, ax, n, by, ay, n))
+      }
+    }
+  }
+}
+
 fn swapped_of(sp: &JointSpectrum, fs: FrequencySpace) -> Vec<C> {
   fs.as_steps().into_iter().map(|(ws, wi)| sp.jsa(wi, ws)).collect()
 }
@@ -737,13 +998,16 @@ fn setup_part(ctx: &mut Ctx) {
     let sp = spdc.joint_spectrum(integ);
     // identical axes (the statement's grids); every third case uses the setup's own optimum range
     let fs0 = if c % 3 == 2 { spdc.optimum_range(n) } else { symmetric_range(&mut ctx.rng, &spdc, n) };
+    // one case in three: axes that are related without being identical (shared edges, opposite order, …)
+    let (wk, fs0) = if c % 3 == 1 && n >= 2 { window_variant(&mut ctx.rng, &spdc, n) } else { (if c % 3 == 2 { "optimum" } else { "identical" }, fs0) };
+    ctx.count(&format!("setup/window/{}", wk));
     // the range is handed over as each of the accepted argument types in turn; the reference grid is the
     // signal × idler frequency grid that argument converts to
     let arg = RangeArg::pick(if c % 2 == 0 { 0 } else { c / 2 }, fs0);
     let fs = arg.frequency_space();
     ctx.count(&format!("setup/range-arg/{}", arg.name()));
     let (ax, bx, _, ay, by, _) = raw(&fs);
-    let identical = ax == ay && bx == by;
+    let identical = ax == ay && bx == by && raw(&fs).2 == raw(&fs).5;
     ctx.count(&format!("setup/{}", st.name.split(',').next().unwrap_or("?")));
     ctx.count(if identical { "setup/identical-axes" } else { "setup/optimum-range" });
     let f = sp.jsa_range(fs);
@@ -753,12 +1017,21 @@ fn setup_part(ctx: &mut Ctx) {
     let span = (bx - ax).abs();
     let norm = own_norm(&f);
     ctx.k("jsi_norm", &cxs(&f), &fl(jsi_norm(&f)));
-    if identical {
+    if identical && f.len() == n * n {
       // the exchanged-argument array on identical axes is the array read at exchanged positions
       ctx.k("swap_arr", &format!("{} {}", n, cxs(&f)), &fls(&g.iter().flat_map(|z| [z.re, z.im]).collect::<Vec<_>>()));
     }
     let t_dip = *(spdcalc::hom_time_delay(&spdc) / S);
-    let delays = vec![0.0, t_dip, t_dip + gen_delay(&mut ctx.rng, span), gen_delay(&mut ctx.rng, span)];
+    let mut delays = vec![0.0, t_dip, t_dip + gen_delay(&mut ctx.rng, span), gen_delay(&mut ctx.rng, span)];
+    let mut list = "dip-zero-random";
+    if c % 2 == 1 {
+      // a scan of the dip as a user would set it up (see `structured_delays`)
+      let unit = if span > 0.0 { ctx.rng.log_range(0.3, 10.0) / span } else { 1e-12 };
+      let (lname, v) = structured_delays(&mut ctx.rng, t_dip, unit);
+      list = lname;
+      delays = v;
+    }
+    ctx.count(&format!("setup/list/{}", list));
     let times: Vec<Time> = delays.iter().map(|t| *t * S).collect();
     let sp2 = spdc.clone();
     let tt = times.clone();
@@ -775,8 +1048,17 @@ fn setup_part(ctx: &mut Ctx) {
       (Some(a), Some(b)) => a.len() == b.len() && a.iter().zip(b.iter()).all(|(x, y)| close(*x, *y, 1e-12, 1e-13) || (x.is_nan() && y.is_nan())),
       _ => false,
     };
-    let det = format!("setup={} range_arg={} n={} {} delays={:?}", st.name, arg.name(), n, gt, delays);
+    let det = format!("setup={} range_arg={} window={} list={} n={} {} delays={:?}", st.name, arg.name(), wk, list, n, gt, delays).replace(", ", ",");
     ctx.s("C09.wrapper", okw, "hom/setup-series-eq-array", &det);
+    // S: every entry of the setup-level series is the individually computed rate at that delay
+    if norm > 0.0 {
+      let singles: Vec<Option<f64>> = delays.iter().map(|t| guard(|| hom_rate(fs, &f, &g, *t * S, None))).collect();
+      let oks = match &ser {
+        Some(a) => a.len() == singles.len() && a.iter().zip(singles.iter()).all(|(x, y)| matches!(y, Some(y) if close(*x, *y, 1e-12, 1e-13) || (x.is_nan() && y.is_nan()))),
+        None => false,
+      };
+      ctx.s("C09.series", oks, "hom/setup-series-eq-individual", &format!("{} series={:?} individual={:?}", det, ser, singles).replace(", ", ","));
+    }
     // visibility wrapper
     let sp3 = spdc.clone();
     let vis = guard(move || with_range!(arg, r => sp3.hom_visibility(r, integ)));
@@ -856,7 +1138,22 @@ fn two_range(r: &mut Rng, s: &SPDC, n: usize) -> (&'static str, FrequencySpace) 
   let cy = 0.5 * (o.3 + o.4);
   let hx = 0.5 * (o.1 - o.0).abs();
   let hy = 0.5 * (o.4 - o.3).abs();
-  match r.below(6) {
+  match r.below(8) {
+    6 => {
+      // both axes start at the same frequency and end differently (or the other way round)
+      let c = 0.5 * (cx + cy);
+      let h = hx.max(hy) * r.range(0.5, 1.3);
+      let h2 = h * *r.pick(&[0.5, 0.75, 0.999, 1.25, 2.0]);
+      if r.coin() {
+        ("shared-start", fspace(c - h, c + h, n, c - h, c + h2, n))
+      } else {
+        ("shared-end", fspace(c - h, c + h, n, c - h2, c + h, n))
+      }
+    }
+    7 => {
+      let w = r.below(3);
+      above_pump_window(r, s, n, w)
+    }
     0 => ("optimum", s.optimum_range(n)),
     1 => {
       // identical axes
@@ -1154,6 +1451,18 @@ fn two_part(ctx: &mut Ctx) {
       let j = ctx.rng.below(i + 1);
       delays.swap(i, j);
     }
+    if c % 3 == 2 && n <= 12 {
+      // a scan around zero delay with structure (coarse wings / fine centre, even steps, repeated values, …);
+      // zero is added where the list does not contain it
+      let (_, mut v) = structured_delays(&mut ctx.rng, 0.0, t);
+      v.truncate(7);
+      if !v.iter().any(|x| *x == 0.0) {
+        let at = ctx.rng.below(v.len() + 1);
+        v.insert(at, 0.0);
+      }
+      delays = v;
+      ctx.count("two/structured-delay-list");
+    }
     let zero_at = delays.iter().position(|x| *x == 0.0).unwrap_or(0);
     ctx.count(&format!("two/zero-delay-at={}", if zero_at == 0 { "first" } else if zero_at + 1 == delays.len() { "last" } else { "middle" }));
     let times: Vec<Time> = delays.iter().map(|x| *x * S).collect();
@@ -1343,6 +1652,202 @@ fn two_part(ctx: &mut Ctx) {
         let empty = vec![Vec::<C>::new(); 8];
         ctx.k("hom2", &format!("{} {} 1 {} {}", grid_str(&q1), grid_str(&q2), fl(0.0), eight_str(&empty)), &out);
         ctx.count("two/assert-mismatch");
+      }
+    }
+  }
+}
+
+/// a thin, broadband source: a generous window around it can reach past the pump wavelength
+fn broadband_setup(r: &mut Rng) -> Setup {
+  let lp = 775.0 + r.range(-10.0, 10.0);
+  let len_um = r.log_range(100.0, 600.0);
+  let bw = r.range(10.0, 40.0);
+  let wp_um = r.log_range(40.0, 400.0);
+  let ws_um = r.log_range(30.0, 300.0);
+  let ls = 2.0 * lp;
+  let json = format!(
+    r#"{{"crystal":{{"kind":"BBO_1","pm_type":"e->oo","phi_deg":0,"theta_deg":"auto","length_um":{len_um},"temperature_c":20}},
+"pump":{{"wavelength_nm":{lp},"waist_um":{wp_um},"bandwidth_nm":{bw},"average_power_mw":100}},
+"signal":{{"wavelength_nm":{ls},"phi_deg":0,"theta_external_deg":0,"waist_um":{ws_um},"waist_position_um":"auto"}},
+"idler":"auto","deff_pm_per_volt":1.0}}"#
+  );
+  let js = json.clone();
+  if let Some(Ok(spdc)) = guard(move || SPDC::from_json(js)) {
+    let sp = spdc.clone();
+    if guard(move || sp.joint_spectrum(Integrator::default())).is_some() {
+      return Setup {
+        name: format!("BBO-I-thin-broadband/deg L={:.4e}um wp={:.4e}um ws={:.4e}um bw={:.4e}nm lp={:.6}nm ls={:.6}nm", len_um, wp_um, ws_um, bw, lp, ls).replace(' ', ","),
+        spdc,
+        degenerate: true,
+        json: Some(json),
+      };
+    }
+  }
+  gen_setup(r, Some(true))
+}
+
+fn all_finite(v: &[C]) -> bool {
+  v.iter().all(|z| z.re.is_finite() && z.im.is_finite())
+}
+
+/// C10 — "this setup against itself" through the method, the free function and the zero-delay entry of the rate
+/// series on windows that reach above the pump frequency (wavelengths shorter than the pump's), end exactly at
+/// it, or share an edge between the axes: all three are the purity of the JSA matrix sampled on the caller's grid.
+fn two_window_part(ctx: &mut Ctx) {
+  let sides: &[usize] = if ctx.thorough { &[4, 5, 6, 8, 12, 16, 24] } else { &[4, 5, 6, 8, 16] };
+  for c in 0..ctx.n {
+    let integ = *ctx.rng.pick(&[Integrator::default(), Integrator::Simpson { divs: 10 }, Integrator::GaussLegendre { degree: 6 }]);
+    let st = match c % 3 {
+      0 => broadband_setup(&mut ctx.rng),
+      1 => gen_setup_x(&mut ctx.rng, None),
+      _ => gen_setup(&mut ctx.rng, Some(true)),
+    };
+    let n = *ctx.rng.pick(sides);
+    let s1 = st.spdc.clone();
+    let lp_nm = *(s1.pump.vacuum_wavelength() / (NANO * M));
+    let (wk, r0) = match c % 4 {
+      0 => {
+        // wavelength window [x, L]² with x shorter than (or equal to) the pump wavelength
+        let x = lp_nm * *ctx.rng.pick(&[1.0, 0.999, 0.99, 0.98, 0.95, 0.9]);
+        let l = lp_nm * ctx.rng.range(3.0, 4.0);
+        let w = WavelengthSpace::new((x * NANO * M, l * NANO * M, n), (x * NANO * M, l * NANO * M, n));
+        ("wavelength-window-past-pump", FrequencySpace::from(w))
+      }
+      1 => above_pump_window(&mut ctx.rng, &s1, n, 0),
+      2 => {
+        let w = 1 + ctx.rng.below(2);
+        above_pump_window(&mut ctx.rng, &s1, n, w)
+      }
+      _ => two_range(&mut ctx.rng, &s1, n),
+    };
+    let arg = RangeArg::pick(if c % 2 == 0 { 0 } else { c / 2 }, r0);
+    let r1 = arg.frequency_space();
+    ctx.count(&format!("twowin/window/{}", wk));
+    ctx.count(&format!("twowin/range-arg/{}", arg.name()));
+    let js1 = s1.joint_spectrum(integ);
+    let e = eight(&js1, &js1, &r1, &r1);
+    let es = eight_str(&e);
+    let gs = grid_str(&r1);
+    let wp = *(s1.pump.frequency() / (RAD / S));
+    let q = raw(&r1);
+    let above = q.0 > wp || q.1 > wp || q.3 > wp || q.4 > wp;
+    ctx.count(if above { "twowin/reaches-above-pump" } else { "twowin/below-pump" });
+    let norm = own_norm(&e[0]);
+    let usable = all_finite(&e[0]) && norm > 0.0;
+    ctx.count(if usable { "twowin/non-zero-spectrum" } else { "twowin/zero-or-nan-spectrum" });
+    let pur = if usable { purity(&e[0], n) } else { None };
+    let det = format!(
+      "setup={} range_arg={} integrator={} n={} window={} above_pump={} pump_frequency={:e} {}",
+      st.name, arg.name(), format!("{:?}", integ).replace(' ', ""), n, wk, above as u8, wp, grid_txt(&r1)
+    );
+    let z = fl(0.0);
+    // method
+    let sp = s1.clone();
+    let vm = guard(move || with_range!(arg, r => sp.hom_two_source_visibilities(r, integ)));
+    // free function, same reference
+    let a = s1.clone();
+    let vf = guard(move || hom_two_source_visibilities(&a, &a, r1, r1, integ));
+    // rate series with the zero entry last
+    let span = (q.1 - q.0).abs().max((q.4 - q.3).abs());
+    let t = ctx.rng.log_range(0.05, 20.0) / span.max(1.0);
+    let delays = vec![t, 0.0];
+    let sp = s1.clone();
+    let tt: Vec<Time> = delays.iter().map(|x| *x * S).collect();
+    let ser = guard(move || with_range!(arg, r => sp.hom_two_source_rate_series(tt, r, integ)));
+    for (route, v) in [("method", &vm), ("free-function", &vf)] {
+      match v {
+        Some(v) => {
+          ctx.k("hom2_vis", &format!("1 {} {} {} {} {} {}", gs, gs, z, z, z, es), &fls(&[v.ss.1, v.ii.1, v.si.1]));
+          if usable {
+            let t3 = Some([v.ss.flat(), v.ii.flat(), v.si.flat()]);
+            vis_preds(ctx, "fields", &t3, pur, &format!("{} route={}", det, route), true);
+          }
+        }
+        None => ctx.s("C10.purity", false, "hom2/visibilities-panic", &format!("{} route={}", det, route)),
+      }
+    }
+    if let (Some(m), Some(f), true) = (&vm, &vf, usable) {
+      // one statement, two routes: the same three numbers
+      let same = [(m.ss.1, f.ss.1), (m.ii.1, f.ii.1), (m.si.1, f.si.1)].iter().all(|(x, y)| (x - y).abs() <= 1e-9 || (x.is_nan() && y.is_nan()));
+      ctx.s(
+        "C10.purity",
+        same,
+        "hom2/method-eq-free-function",
+        &format!("{} method=({:e},{:e},{:e}) free=({:e},{:e},{:e})", det, m.ss.1, m.ii.1, m.si.1, f.ss.1, f.ii.1, f.si.1),
+      );
+    }
+    match &ser {
+      Some(r) => {
+        ctx.k("hom2", &format!("{} {} {} {} {}", gs, gs, delays.len(), fls(&delays), es), &fls(&[r.ss.clone(), r.ii.clone(), r.si.clone()].concat()));
+        if let (Some(p), true) = (pur, r.ss.len() == 2 && r.ii.len() == 2 && r.si.len() == 2) {
+          series_zero_pred(ctx, "fields", &[r.ss.clone(), r.ii.clone(), r.si.clone()], 1, p, &format!("{} delays={:?}", det, delays).replace(", ", ","));
+          if let Some(m) = &vm {
+            // the method's visibilities are (½ − rate)/½ of the zero-delay entry of the method's own series
+            let ok = [(m.ss.1, r.ss[1]), (m.ii.1, r.ii[1]), (m.si.1, r.si[1])].iter().all(|(v, x)| (v - (0.5 - x) / 0.5).abs() <= 1e-9);
+            ctx.s("C10.purity", ok, "hom2/visibilities-eq-zero-delay-series", &format!("{} vis=({:e},{:e},{:e}) series_zero=({:e},{:e},{:e})", det, m.ss.1, m.ii.1, m.si.1, r.ss[1], r.ii[1], r.si[1]));
+          }
+        }
+      }
+      None => ctx.s("C10.bounds", false, "hom2/rate-series-panic", &det),
+    }
+  }
+}
+
+/// C10 — sides beyond the usual 4–24 (more than 4096 grid points; side⁴ terms per delay): V_ss = V_ii = purity
+/// on windows narrower than the optimum range, so that the first and last rows of the JSA matrix are non-zero.
+/// S only (the model's four-index sum on these sides would take minutes).
+fn two_big_part(ctx: &mut Ctx) {
+  for c in 0..ctx.n {
+    let n = match c % 4 {
+      0 => ctx.rng.between(65, 68),
+      1 => ctx.rng.between(69, 84),
+      2 => 64,
+      _ => *ctx.rng.pick(&[90usize, 91, 96]),
+    };
+    let integ = Integrator::Simpson { divs: 10 };
+    let st = if c % 2 == 0 { Setup { name: "default".into(), spdc: SPDC::default(), degenerate: true, json: None } } else { gen_setup(&mut ctx.rng, Some(true)) };
+    let s1 = st.spdc.clone();
+    let o = raw(&s1.optimum_range(n));
+    let (cx, cy) = (0.5 * (o.0 + o.1), 0.5 * (o.3 + o.4));
+    let (hx, hy) = (0.5 * (o.1 - o.0).abs(), 0.5 * (o.4 - o.3).abs());
+    let k = ctx.rng.range(0.3, 0.6);
+    let r1 = fspace(cx - k * hx, cx + k * hx, n, cy - k * hy, cy + k * hy, n);
+    let js1 = s1.joint_spectrum(integ);
+    let f = js1.jsa_range(r1);
+    let usable = all_finite(&f) && own_norm(&f) > 0.0;
+    ctx.count(&format!("twobig/side={}", n));
+    let rim: f64 = (0..n).map(|j| f[j].norm_sqr() + f[(n - 1) * n + j].norm_sqr()).sum();
+    ctx.count(if rim > 0.0 { "twobig/non-zero-first-and-last-row" } else { "twobig/zero-rim" });
+    if !usable {
+      continue;
+    }
+    let pur = purity(&f, n);
+    let det = format!("setup={} integrator=Simpson{{divs:10}} n={} window=optimum*{:.4} {}", st.name, n, k, grid_txt(&r1));
+    let sp = s1.clone();
+    let vm = guard(move || sp.hom_two_source_visibilities(r1, integ));
+    match &vm {
+      Some(v) => {
+        let t3 = Some([v.ss.flat(), v.ii.flat(), v.si.flat()]);
+        vis_preds(ctx, "fields", &t3, pur, &det, true);
+      }
+      None => ctx.s("C10.purity", false, "hom2/visibilities-panic", &det),
+    }
+    if c % 2 == 1 || ctx.thorough {
+      // the zero entry of a two-delay scan, and the bounds of the statement at the other delay
+      let t = ctx.rng.log_range(0.05, 20.0) / (2.0 * k * hx.max(hy)).max(1.0);
+      let delays = vec![t, 0.0];
+      let tt: Vec<Time> = delays.iter().map(|x| *x * S).collect();
+      let sp = s1.clone();
+      match guard(move || sp.hom_two_source_rate_series(tt, r1, integ)) {
+        Some(r) if r.ss.len() == 2 && r.ii.len() == 2 && r.si.len() == 2 => {
+          if let Some(p) = pur {
+            series_zero_pred(ctx, "fields", &[r.ss.clone(), r.ii.clone(), r.si.clone()], 1, p, &format!("{} delays={:?}", det, delays).replace(", ", ","));
+          }
+          for (name, v) in [("ss", r.ss[0]), ("ii", r.ii[0])] {
+            ctx.s("C10.bounds", v >= -EDGE && v <= 1.0 + EDGE, &format!("hom2/rate-{}-in-unit", name), &format!("{} who=big channel={} tau={:e} rate={:e}", det, name, t, v));
+          }
+        }
+        _ => ctx.s("C10.bounds", false, "hom2/rate-series-panic", &det),
       }
     }
   }
